@@ -39,6 +39,9 @@ TEMPLATES = [
     # two namespaces importing the same name: the later declaration wins, whatever the hash seed
     ("two-imports", '<%namespace name="na" import="f"><%def name="f()">first</%def></%namespace><%namespace name="nb" import="f"><%def name="f()">second</%def></%namespace>'
                     '<%namespace name="nc" import="g, f"><%def name="f()">third</%def><%def name="g()">g</%def></%namespace>${f()}|${g()}\n', []),
+    # the order in which page arguments and the body's assignments enter the context (what a def called from the body sees in context.keys())
+    ("context-order", '<%page args="pa=1, pb=2, pc=3, pd=4"/><% alpha = 1; beta = 2; gamma = 3; delta = 4; eps = 5 %>'
+                      '<%def name="d()">${[k for k in context.keys() if k in ("alpha", "beta", "gamma", "delta", "eps", "pa", "pb", "pc", "pd")]}</%def>${d()}\n', ["d"]),
     # a template file in a non-UTF-8 encoding, declared by its coding comment
     ("latin1", "## -*- coding: iso-8859-1 -*-\ncaf\u00e9 cr\u00e8me ${x}\n", []),
 ]
@@ -183,6 +186,16 @@ def run(ctx):
                     mt = ModuleTemplate(t.module, template_source=src)
                     if mt.render(**DATA) != r1:
                         ctx.violation(dict(case, module_template=mt.render(**DATA)[:200], render=r1[:200]), "ModuleTemplate renders differently", tags=["c08.module-template"])
+                    # ... and wrapped the documented way, with the module alone: a module loaded from a file knows its own path and
+                    # its template's, so source and code are the template's here too
+                    if getattr(t.module, "__file__", None) and getattr(t.module, "_template_filename", None):
+                        bare = ModuleTemplate(t.module)
+                        try:
+                            bsrc, bcode = bare.source, norm_code(bare.code)
+                        except Exception as e:  # noqa
+                            bsrc, bcode = "raised %s" % type(e).__name__, ""
+                        if bsrc != src or bcode != norm_code(t.code):
+                            ctx.violation(dict(case, source=str(bsrc)[:200]), "ModuleTemplate(module).source / .code are not the template's own", tags=["c08.module-template.bare"])
                 except Exception as e:  # noqa
                     ctx.violation(dict(case, error=repr(e)[:300]), "a construction / rendering path raised", tags=["c08.raise." + path])
             ref = outs.get("string")
@@ -204,7 +217,7 @@ def run(ctx):
                         ctx.violation({"template": src, "path": path, "rendered": o, "expected": want}, "get_def(name).render()", tags=["c08.get_def"])
             # a fresh interpreter on the existing module file, under several hash seeds; mako-render
             seeds = ["0", "1", "2"] if tier == "quick" else [str(i) for i in range(32)]
-            if name in ("many-names", "defs", "unicode", "code", "two-imports", "latin1") or tier != "quick":
+            if name in ("many-names", "defs", "unicode", "code", "two-imports", "latin1", "context-order") or tier != "quick":
                 sub_outs, sub_codes = {}, {}
                 for seed in seeds:
                     ctx.evaluations += 1
